@@ -178,58 +178,6 @@ Definition expected_cmd_NegotiateResponse : cmd_desc := {|
   ];
   cd_opaque := ["Unmarshal: if c.GetParameters() == nil { c.SetParameters(parameters.NewParameters()) }"; "Unmarshal: if c.GetData() == nil { c.SetData(data.NewData()) }"; "Unmarshal: bytesRead, err := c.GetParameters().Unmarshal(marshalledData)"; "Unmarshal: _, err = c.GetData().Unmarshal(marshalledData[bytesRead:])"; "Unmarshal: rawDataContent = rawDataContent[offset:]"; "Unmarshal: domainName, offset := utils.GetNullTerminatedUnicodeString(rawDataContent)"; "Unmarshal: c.DomainName = []types.UCHAR(domainName)"; "Unmarshal: rawDataContent = rawDataContent[offset:]"; "Unmarshal: serverName, offset := utils.GetNullTerminatedUnicodeString(rawDataContent)"; "Unmarshal: c.ServerName = []types.UCHAR(serverName)"]
 |}.
-Definition expected_cmd_OpenAndxRequest : cmd_desc := {|
-  cd_name := "OpenAndxRequest";
-  cd_code := 45;
-  cd_andx := true;
-  cd_request := true;
-  cd_params_first := true;
-  cd_empty := EmptyBoth;
-  cd_decl := [("Flags", TInt 2); ("AccessMode", TInt 2); ("SearchAttrs", TNamed "SMB_FILE_ATTRIBUTES"); ("FileAttrs", TNamed "SMB_FILE_ATTRIBUTES"); ("CreationTime", TNamed "FILETIME"); ("OpenMode", TInt 2); ("AllocationSize", TInt 4); ("Timeout", TInt 4); ("Reserved", TFixedArray 2 (TInt 2)); ("FileName", TNamed "SMB_STRING")];
-  cd_marshal := [
-    MNested SD "FileName" (TNamed "SMB_STRING") "";
-    MInt SP "Flags" 2 BE;
-    MInt SP "AccessMode" 2 BE;
-    MNested SP "SearchAttrs" (TNamed "SMB_FILE_ATTRIBUTES") "";
-    MNested SP "FileAttrs" (TNamed "SMB_FILE_ATTRIBUTES") "";
-    MNested SP "CreationTime" (TNamed "FILETIME") "";
-    MInt SP "OpenMode" 2 BE;
-    MInt SP "AllocationSize" 4 BE;
-    MInt SP "Timeout" 4 BE;
-    MOpaque "for i := range c.Reserved { binary.BigEndian.PutUint16(buf2, uint16(c.Reserved[i])) rawParametersContent = append(rawParametersContent, buf2...) }"
-  ];
-  cd_unmarshal := [
-    UReset SP;
-    UGuard SP (EConst 2);
-    UInt SP "Flags" 2 BE (EConst 2);
-    UAdv (EConst 2);
-    UGuard SP (EConst 2);
-    UInt SP "AccessMode" 2 BE (EConst 2);
-    UAdv (EConst 2);
-    UNested SP "SearchAttrs" (TNamed "SMB_FILE_ATTRIBUTES") ERest;
-    UAdv ERead;
-    UNested SP "FileAttrs" (TNamed "SMB_FILE_ATTRIBUTES") ERest;
-    UAdv ERead;
-    UGuard SP (EConst 8);
-    UNested SP "CreationTime" (TNamed "FILETIME") ERest;
-    UAdv ERead;
-    UGuard SP (EConst 2);
-    UInt SP "OpenMode" 2 BE (EConst 2);
-    UAdv (EConst 2);
-    UGuard SP (EConst 4);
-    UInt SP "AllocationSize" 4 BE (EConst 4);
-    UAdv (EConst 4);
-    UGuard SP (EConst 4);
-    UInt SP "Timeout" 4 BE (EConst 4);
-    UAdv (EConst 4);
-    UGuard SP (EConst 2);
-    UOpaque "for i := range c.Reserved { c.Reserved[i] = types.USHORT(binary.BigEndian.Uint16(rawParametersContent[offset : offset+2])) offset += 2 }";
-    UReset SD;
-    UNested SD "FileName" (TNamed "SMB_STRING") ERest;
-    UAdv ERead
-  ];
-  cd_opaque := ["Marshal: for i := range c.Reserved { binary.BigEndian.PutUint16(buf2, uint16(c.Reserved[i])) rawParametersContent = append(rawParametersContent, buf2...) }"; "Unmarshal: for i := range c.Reserved { c.Reserved[i] = types.USHORT(binary.BigEndian.Uint16(rawParametersContent[offset : offset+2])) offset += 2 }"]
-|}.
 Definition expected_cmd_SessionSetupAndxRequest : cmd_desc := {|
   cd_name := "SessionSetupAndxRequest";
   cd_code := 115;
@@ -410,7 +358,6 @@ Definition expected_untranslated : list cmd_desc := [
   expected_cmd_FindUniqueResponse;
   expected_cmd_LockingAndxRequest;
   expected_cmd_NegotiateResponse;
-  expected_cmd_OpenAndxRequest;
   expected_cmd_SessionSetupAndxRequest;
   expected_cmd_SessionSetupAndxResponse;
   expected_cmd_SetInformationRequest;
